@@ -65,6 +65,15 @@ pub fn observe(_ctx: &Ctx, st: &mut Stats, job: &Job) {
             return;
         }
     };
+    // a fifth of the symbols are edited through the public API before rendering (toggled modules, inverted symbol,
+    // function patterns forced, type labels rewritten): the text must follow the module values it is given
+    let qr = if job.seed % 5 == 3 {
+        let (e, _) = adapter::edited_by_hand(&qr, job.seed);
+        st.count("symbols_edited_by_hand_before_rendering", 1);
+        Box::new(e)
+    } else {
+        qr
+    };
     // history: every second job first renders another symbol of an unrelated size on the same thread
     // (bigger or smaller, also checked), so that a renderer that keeps anything between calls shows
     if job.seed & 1 == 1 {
